@@ -69,7 +69,7 @@ const REAL_AGENT: [&str; 3] = ["stun_proto::agent::StunAgent (send, poll, handle
 const SIM_AGENT: [&str; 4] = ["clock (nanosecond offsets from one anchor Instant)", "application driving the agent (seeded operation mix)", "peer / attacker producing genuine, forged, replayed, truncated responses", "poll scheduler (exact, early, late, stalled, clock jump)"];
 const REF_AGENT: [&str; 2] = ["transaction model (sim/src/model_tx.rs)", "reference codec: HMAC/CRC/TLV walk (sim/src/refcodec.rs)"];
 
-const RULE_AGENT: &str = "batch `agent`: each evaluation is one seeded history of 5..70 (thorough 5..200) agent calls plus the drain to quiescence, checked against the transaction model after every call; one run in 25 is a scale run (100..400 calls, thorough up to 1200; 9..40, one time in ten 250..320, concurrent transactions; 12..48, one time in eight about 330, peers; bursts of sends and of incoming requests; floods of 20..300 forged responses; exactly 2^8 / 2^16 (+-1) state-changing calls between two adjacent polls; with many transactions or peers the per-call query sweep covers what the call touched plus a rotating window, and every 16th sweep everything); one run in six starts its clock at 1 ns, 2^32 ms, 2^53 ns, 10^9 s or one day; one run in 20 has a TRACE-level tracing subscriber installed; when checking C07 a twin agent is handed every call except the dropped responses and must answer identically; a run is non-trivial when it had >=2 transactions outstanding at once or at least one fired fault (late/stalled poll, forged/replayed/duplicate/unknown response, truncation, duplicate id, cancel); distinct = distinct FNV-1a hash of the full event log (every call, reply, simulated instant and query result). Batches `world`: each evaluation is one discrete-event run of 1..3 clients (real StunAgents, one transaction model each), a server running stund.rs's logic on real library code, an attacker, UDP links (drop, duplicate, delay/reorder, corrupt, truncate, coalesce, NAT, partition/heal) and RFC 4571-framed TCP streams through real TcpBuffers (segmentation, stalls, connection cut); faults stop at a drawn quiescence time, after which every transaction must complete within its schedule; profile `calm` is the same world without network faults or attacker. Round 4 knobs of the `agent` batch: in one run of five a third of the send / poll / handle_stun calls are made through a kept StunRequestMut handle (its peer_address() read before and after); in one run of four, while nothing is due, some polls carry an instant up to 2 s earlier than the latest one handed in; in one run of six the agent is bound to a wildcard, IPv6, IPv4-mapped or loopback address; builders are handed to send as built, cloned or after into_owned(); one message description in five is assembled with refused builder operations interleaved";
+const RULE_AGENT: &str = "batch `agent`: each evaluation is one seeded history of 5..70 (thorough 5..200) agent calls plus the drain to quiescence, checked against the transaction model after every call; one run in 25 is a scale run (100..400 calls, thorough up to 1200; 9..40, one time in ten 250..320, concurrent transactions; 12..48, one time in eight about 330, peers; bursts of sends and of incoming requests; floods of 20..300 forged responses; exactly 2^8 / 2^16 (+-1) state-changing calls between two adjacent polls; with many transactions or peers the per-call query sweep covers what the call touched plus a rotating window, and every 16th sweep everything); one run in six starts its clock at 1 ns, 2^32 ms, 2^53 ns, 10^9 s or one day; one run in 20 has a TRACE-level tracing subscriber installed; when checking C07 a twin agent is handed every call except the dropped responses and must answer identically; a run is non-trivial when it had >=2 transactions outstanding at once or at least one fired fault (late/stalled poll, forged/replayed/duplicate/unknown response, truncation, duplicate id, cancel); distinct = distinct FNV-1a hash of the full event log (every call, reply, simulated instant and query result). Batches `world`: each evaluation is one discrete-event run of 1..3 clients (real StunAgents, one transaction model each), a server running stund.rs's logic on real library code, an attacker, UDP links (drop, duplicate, delay/reorder, corrupt, truncate, coalesce, NAT, partition/heal) and RFC 4571-framed TCP streams through real TcpBuffers (segmentation, stalls, connection cut); faults stop at a drawn quiescence time, after which every transaction must complete within its schedule; profile `calm` is the same world without network faults or attacker. Round 5: the server's agents (responder role) are judged by a server-side ledger after every delivery - validated-peer set = the source addresses whose delivery was answered IncomingStun/StunResponse (addresses seen only through refused or dropped traffic included: NAT rebinding gives the server such addresses, and the attacker sends it forged and replayed response-class messages), an answer handed to the server agent's send comes back as one transmission with build()'s bytes from the server to the requester, nothing is ever outstanding and poll reports no event. Round 4 knobs of the `agent` batch: in one run of five a third of the send / poll / handle_stun calls are made through a kept StunRequestMut handle (its peer_address() read before and after); in one run of four, while nothing is due, some polls carry an instant up to 2 s earlier than the latest one handed in; in one run of six the agent is bound to a wildcard, IPv6, IPv4-mapped or loopback address; builders are handed to send as built, cloned or after into_owned(); one message description in five is assembled with refused builder operations interleaved";
 
 fn agent_plan(profile: &'static str, quick: u64, thorough_runs: u64, thorough: bool, probes: Vec<&'static str>) -> Plan {
     let world_profile = if profile == "forgery" { "forgery" } else { "hostile" };
